@@ -118,6 +118,8 @@ structure HttpReq where
   pathKnown : Bool
   isPost : Bool
   ctype : CType
+  bodyReads : Bool         -- `io.ReadAll(req.Body)` succeeds: not cut short, the compressed stream is intact, and the
+                           -- body (before and after decompression) fits `max_request_body_size`
   bodyDecodes : Bool       -- the (decompressed) body unmarshals as an export request
   items : Nat
 deriving DecidableEq, Repr
@@ -134,7 +136,7 @@ where `errorHandlerKeepsStatus = false`, answers the fixed 500 fallback -/
 def errorHandlerStatus (ct : CType) (st : Nat) : Nat :=
   if ct = .other ∧ !OtlpTables.errorHandlerKeepsStatus then 500 else st
 
-/-- the HTTP server stack in order: auth → decompressor → mux → method → content type → unmarshal → Export.
+/-- the HTTP server stack in order: auth → decompressor → mux → method → content type → read body → unmarshal → Export.
 Returns (status line facts, consumer calls). Statuses of rejected requests carry no Retry-After. -/
 def httpFront (r : HttpReq) (sink : Outcome) : WireHttp × Nat :=
   if r.authOk = some false then (⟨errorHandlerStatus r.ctype authStatusHttp, none, 16⟩, 0)
@@ -142,6 +144,8 @@ def httpFront (r : HttpReq) (sink : Outcome) : WireHttp × Nat :=
   else if !r.pathKnown then (⟨pathStatus, none, 0⟩, 0)
   else if !r.isPost then (⟨OtlpTables.methodStatus, none, 0⟩, 0)
   else if r.ctype = .other then (⟨OtlpTables.contentTypeStatus, none, 0⟩, 0)
+  else if !r.bodyReads then
+    (⟨OtlpTables.readBodyStatus, none, lookupD OtlpTables.grpcOfHttp OtlpTables.grpcOfHttpDefault OtlpTables.readBodyStatus⟩, 0)
   else if !r.bodyDecodes then
     (⟨OtlpTables.unmarshalStatus, none, lookupD OtlpTables.grpcOfHttp OtlpTables.grpcOfHttpDefault OtlpTables.unmarshalStatus⟩, 0)
   else
@@ -207,6 +211,96 @@ def Verdict.isRetry : Verdict → Bool
   | .retryable => true
   | .throttle _ => true
   | _ => false
+
+/-! ## the senders against ANY server (scripted fake servers): every status, header and body
+
+The real receiver only ever produces the wires above. A sender, however, classifies whatever comes back; these
+functions model `otlphttpexporter.export` and `otlpexporter.processError` on the full input space: signed delays
+(`time.Duration` arithmetic wraps at 64 bits), `Retry-After` as delay-seconds / HTTP-date / garbage / empty,
+response bodies that are or are not what the protocol says. -/
+
+inductive VerdictI
+  | success
+  | permanent
+  | retryable
+  | throttle (ns : Int)
+deriving DecidableEq, Repr
+
+/-- two's-complement wrap of `time.Duration` (int64) arithmetic -/
+def wrap64 (x : Int) : Int := (x + 9223372036854775808) % 18446744073709551616 - 9223372036854775808
+
+/-- the first `Retry-After` value as the exporter parses it: `strconv.Atoi`, else `time.Parse(time.RFC1123, …)`
+(`deltaNs` = `time.Until(date)` when the response is processed), else unusable (incl. the empty string) -/
+inductive RetryAfter
+  | absent
+  | seconds (s : Int)
+  | date (deltaNs : Int)
+  | unusable
+deriving DecidableEq, Repr
+
+/-- what the exporter makes of the body of a 2xx response (`handlePartialSuccessResponse` + `xPartialSuccessHandler`) -/
+inductive SuccessBody
+  | empty                 -- no body (Content-Length 0 / EOF)
+  | response              -- a decodable Export*ServiceResponse in the declared content type (with or without partial_success)
+  | otherContentType      -- Content-Type is neither exactly protobuf nor exactly JSON: ignored
+  | undecodable           -- declared protobuf/JSON but does not decode (garbage, truncated at 64 KiB, …)
+deriving DecidableEq, Repr
+
+structure HttpResp where
+  status : Nat
+  ra : RetryAfter
+  body : SuccessBody        -- only looked at for 2xx; for other statuses the body only feeds the error *message*
+deriving DecidableEq, Repr
+
+/-- otlphttpexporter `export`, complete -/
+def expHttpX (r : HttpResp) : VerdictI :=
+  if OtlpTables.successLo ≤ r.status ∧ r.status ≤ OtlpTables.successHi then
+    (match r.body with
+     | .undecodable => .retryable      -- "error parsing … response": a plain error, i.e. retried
+     | _ => .success)                  -- partial success is logged, never an error
+  else if !OtlpTables.httpRetryable.contains r.status then .permanent
+  else if OtlpTables.expThrottleStatuses.contains r.status then
+    match r.ra with
+    | .absent => .retryable
+    | .seconds s => .throttle (wrap64 (s * nsPerSec))
+    | .date d => .throttle d
+    | .unusable => .retryable
+  else .retryable
+
+/-- otlpexporter `processError`, complete: any code, RetryInfo with a signed delay; a partial-success response
+(no error) is success -/
+def expGrpcX (code : Nat) (ri : Option Int) : VerdictI :=
+  if code = 0 then .success
+  else if !shouldRetry code (ri.map Int.toNat) then .permanent
+  else match ri with
+    | some d => if d ≠ 0 then .throttle d else .retryable
+    | none => .retryable
+
+/-- the specification on the full input space (hand-written): 2xx success; 429/502/503/504 retryable, all else
+permanent; 429/503 with a usable `Retry-After` → wait that long -/
+def specHttpX (r : HttpResp) : VerdictI :=
+  if 200 ≤ r.status ∧ r.status ≤ 299 then (if r.body = .undecodable then .retryable else .success)
+  else if !specHttpRetryable r.status then .permanent
+  else if r.status = 429 ∨ r.status = 503 then
+    match r.ra with
+    | .seconds s => .throttle (wrap64 (s * nsPerSec))
+    | .date d => .throttle d
+    | _ => .retryable
+  else .retryable
+
+/-- the specification for a gRPC sender on the full input space (hand-written) -/
+def specGrpcX (c : Nat) (ri : Option Int) : VerdictI :=
+  if c = 0 then .success
+  else if !specGrpcRetryable c ri.isSome then .permanent
+  else match ri with
+    | some d => if d = 0 then .retryable else .throttle d
+    | none => .retryable
+
+def Verdict.toI : Verdict → VerdictI
+  | .success => .success
+  | .permanent => .permanent
+  | .retryable => .retryable
+  | .throttle d => .throttle d
 
 /-! ## the property on one observed hop (search oracle) -/
 
